@@ -411,7 +411,7 @@ _ACK_RX_RE = re.compile(r"packet_header: OneRtt.*ack_range: (\d+)\.\.=(\d+)")
 
 def open_notify_is_retransmission(tr, ep, sid, idx):
     """the known finding F9 is about RETRANSMISSION: the empty stream-open STREAM frame of `sid` was already sent in an
-    earlier packet that the peer has not acknowledged when the frame goes out again (at record `idx`). An empty STREAM
+    earlier packet that was declared lost, or that the peer has not acknowledged, when the frame goes out again (at record `idx`). An empty STREAM
     frame on a reset stream that is not such a retransmission (no earlier copy, or every earlier copy acknowledged) is a
     different behaviour and is not covered by the finding."""
     earlier = [r.pn for r in tr.recs if r.idx < idx and r.kind == "txp" and r.ep == ep and r.space == "app" and
@@ -427,6 +427,10 @@ def open_notify_is_retransmission(tr, ep, sid, idx):
             if m:
                 lo, hi = int(m.group(1)), int(m.group(2))
                 acked.update(pn for pn in earlier if lo <= pn <= hi)
+        elif r.kind == "ev" and r.ep == ep and r.name == "recovery:packet_lost" and "OneRtt" in r.text:
+            m = re.search(r"number: (\d+)", r.text)
+            if m and int(m.group(1)) in earlier:
+                return True      # an earlier copy was declared lost (a late acknowledgement does not cancel the retransmission)
     return any(pn not in acked for pn in earlier)
 
 
